@@ -1,6 +1,9 @@
 pub use hcore::{alloc_audit, comps, family, gen_queries, gen_reg10, gen_reg4, gen_reg8, rng, sched_types};
 mod core;
 mod gen_sched;
+mod gen_ctor;
+mod ctor;
+mod fault;
 mod sched;
 mod raw_ops;
 mod serde_ops;
@@ -102,6 +105,10 @@ fn family_of_file(path: &str) -> String {
 }
 
 fn main() {
+    // panics are expected in several runs (constructors, injected faults): keep stderr quiet
+    if std::env::var("HARNESS_PANIC_MSG").is_err() {
+        std::panic::set_hook(Box::new(|_| {}));
+    }
     let args: Vec<String> = std::env::args().collect();
     let cmd = args.get(1).map(|s| s.as_str()).unwrap_or("");
     let fam: String = arg(&args, "--family", "reg4".to_string());
@@ -111,6 +118,9 @@ fn main() {
             "reg8" => run_core::<gen_reg8::Reg8>(&args),
             _ => run_core::<gen_reg4::Reg4>(&args),
         },
+        "ctor" => ctor::run(),
+        "faultpoint" => fault::child(&args),
+        "fault" => fault::run(arg(&args, "--seed", 1), arg(&args, "--cases", 4), arg(&args, "--maxk", 6)),
         "replay" => {
             let path = args.get(2).expect("replay <file>");
             match family_of_file(path).as_str() {
